@@ -478,7 +478,56 @@ def _ascii_hex(seed_hex):
         return False
 
 
-DISPATCH = {'derive': check_derive, 'numeric': check_numeric}
+
+def check_uncompressed(ctx, case):
+    """Parents made with compressed=False (the library warns that they are not standard; what it derives below them
+    is its own convention, so no reference node is compared): BIP32's own law still has to hold - the public part of
+    the privately derived child IS the publicly derived child, whichever way the public derivation is asked for."""
+    K = _lib()
+    seed = bytes.fromhex(case['seed'])
+    try:
+        if case['via'] == 'seed':
+            root = K.HDKey.from_seed(seed, compressed=False, network=case['network'])
+        else:
+            xprv = K.HDKey.from_seed(seed, network=case['network']).wif_private()
+            root = K.HDKey(xprv, compressed=False, network=case['network'])
+    except Exception as e:
+        ctx.refusal('uncompressed.root.%s' % type(e).__name__)
+        return
+    path = case['path']
+
+    def view(k):
+        return (bytes(k.public_byte).hex(), bytes(k.chain).hex(), k.depth, bytes(k.parent_fingerprint).hex(),
+                k.child_index)
+    try:
+        priv = root
+        for i in path:
+            priv = priv.child_private(index=i)
+        want = view(priv.public())
+    except Exception as e:
+        ctx.refusal('uncompressed.private.%s' % type(e).__name__)
+        return
+    routes = {}
+    try:
+        k = root.public()
+        for i in path:
+            k = k.child_public(index=i)
+        routes['public().child_public'] = view(k)
+        k = root
+        for i in path:
+            k = k.child_public(index=i)
+        routes['child_public'] = view(k)
+        routes["subkey_for_path('M/..')"] = view(root.subkey_for_path('M/' + '/'.join(str(i) for i in path)))
+        routes["public().subkey_for_path"] = view(root.public().subkey_for_path('/'.join(str(i) for i in path)))
+    except Exception as e:
+        raise Discrepancy('uncompressed.public.raises', 'public derivation below an uncompressed parent raised %r' % e,
+                          case)
+    for name, got in sorted(routes.items()):
+        if got != want:
+            raise Discrepancy('uncompressed.commute', 'uncompressed parent, path %r: %s gives %r, the public part of the '
+                              'privately derived child is %r' % (path, name, got, want), case)
+
+DISPATCH = {'derive': check_derive, 'numeric': check_numeric, 'uncompressed': check_uncompressed}
 
 
 def replay(ctx, case):
@@ -728,3 +777,16 @@ def run(ctx):
 
     ctx.run_given('numeric', numeric_strategy(ctx), prop_numeric(ctx), ctx.scale(60, 600))
     ctx.run_given('derive', derive_strategy(ctx), prop_derive(ctx), ctx.scale(250, 2400))
+
+    from hypothesis import strategies as ust
+    unc = ust.fixed_dictionaries({
+        'kind': ust.just('uncompressed'), 'seed': ust.binary(min_size=16, max_size=32).map(bytes.hex),
+        'via': ust.sampled_from(['seed', 'xprv']), 'network': ust.sampled_from(['bitcoin', 'testnet', 'litecoin']),
+        'path': ust.lists(ust.one_of(ust.sampled_from([0, 1, 2, 0x7fffffff]), ust.integers(0, 0x7fffffff)), min_size=1,
+                          max_size=3)})
+
+    def prop_unc(case):
+        ctx.nt(('uncompressed', case['seed'], tuple(case['path']), case['via']))
+        ctx.klass('uncompressed.' + case['via'])
+        check_uncompressed(ctx, case)
+    ctx.run_given('uncompressed', unc, prop_unc, ctx.scale(25, 600))
